@@ -2171,7 +2171,14 @@ class EntityInst(Instance):
             )
 
         entity_name = self._entity._name
-        arch_name = self._entity._arch_name
+
+        if self._entity._arch is not None:
+            # use the name the architecture is declared with
+            # (it differs from the requested name when that name is already used or reserved)
+            arch_name = self._entity._arch.arch_name()
+        else:
+            arch_name = self._entity._arch_name
+
         arch_spec = "" if arch_name is None else f"({arch_name})"
         path = self._entity._path
 
